@@ -17,6 +17,7 @@ type Hash = u.Hash
 // recovers panics, snapshots caller-owned slices (C17), remembers previously returned results
 // and collects violations for the property being checked.
 type Exec struct {
+	ProofAnyway bool // see partial.go
 	Prop   string      // property whose oracle clauses are reported
 	CaseFn func() Case // builds the case being executed (attached to violations, lazily)
 	cs     *Case
